@@ -387,6 +387,10 @@ mod mpp {
 	/// One single-path payment `from -> RECV` over channel `chan`, `amt` msat, with the given onion fields.
 	/// Returns the update_add_htlc the sender queued (nothing is delivered yet).
 	fn send_raw(w: &mut World, from: usize, chan: usize, hash: PaymentHash, onion: RecipientOnionFields, amt: u64, delta: u32) -> Result<Added, String> {
+		send_raw_ks(w, from, chan, hash, onion, amt, delta, None)
+	}
+	/// `keysend`: Some(preimage) puts that keysend preimage into the final onion payload (it need not hash to `hash`: hook keysend::send_with_hash_and_keysend)
+	fn send_raw_ks(w: &mut World, from: usize, chan: usize, hash: PaymentHash, onion: RecipientOnionFields, amt: u64, delta: u32, keysend: Option<PaymentPreimage>) -> Result<Added, String> {
 		w.pay_ctr += 1;
 		let mut pid = [0u8; 32];
 		pid[..8].copy_from_slice(&w.pay_ctr.to_be_bytes());
@@ -398,9 +402,12 @@ mod mpp {
 			channel_features: ChannelFeatures::empty(), fee_msat: amt, cltv_expiry_delta: delta, maybe_announced_channel: true }];
 		let params = PaymentParameters::from_node_id(net.ids[RECV], delta);
 		let route = Route { paths: vec![Path { hops, blinded_tail: None }], route_params: RouteParameters::from_payment_params_and_value(params, amt) };
-		let r = net.nodes[from].node.send_payment_with_route(route, hash, onion, PaymentId(pid));
+		let r = match keysend {
+			None => net.nodes[from].node.send_payment_with_route(route, hash, onion, PaymentId(pid)).map_err(|e| format!("{:?}", e)),
+			Some(_) => vh::keysend::send_with_hash_and_keysend(net.nodes[from].node, &route, hash, onion, keysend, PaymentId(pid)),
+		};
 		net.pump(from);
-		if let Err(e) = r { return Err(format!("{:?}", e)); }
+		if let Err(e) = r { return Err(e); }
 		let mut found = None;
 		if let Some(q) = net.q.get(&(from, RECV)) {
 			for wire in q.iter() { if let Wire::Add(m) = wire { if m.payment_hash == hash && m.channel_id == c.2 { found = Some(Added { htlc_id: m.htlc_id, amount: m.amount_msat, cltv: m.cltv_expiry, skim: m.skimmed_fee_msat, chan }); } } }
@@ -490,6 +497,8 @@ mod mpp {
 		fulfils: Vec<u64>,
 		/// PaymentClaimable: (amount_msat, counterparty_skimmed_fee_msat, claim_deadline)
 		claimable: Vec<(u64, u64, u32)>,
+		/// per PaymentClaimable: purpose is SpontaneousPayment
+		claimable_spont: Vec<bool>,
 		/// PaymentClaimed: (amount_msat, sum of htlcs[].counterparty_skimmed_fee_msat, sender_intended_total_msat, sum of htlcs[].value_msat)
 		claimed: Vec<(u64, u64, u64, u64)>,
 		handling_failed: Vec<String>,
@@ -531,8 +540,8 @@ mod mpp {
 		let evs = &w.net.events[RECV];
 		for e in &evs[epos.min(evs.len())..] {
 			match e {
-				Event::PaymentClaimable { payment_hash, amount_msat, counterparty_skimmed_fee_msat, claim_deadline, .. } => {
-					if payment_hash == hash { s.claimable.push((*amount_msat, *counterparty_skimmed_fee_msat, claim_deadline.unwrap_or(0))); } else { s.trouble = Some("PaymentClaimable for a foreign hash".into()); }
+				Event::PaymentClaimable { payment_hash, amount_msat, counterparty_skimmed_fee_msat, claim_deadline, purpose, .. } => {
+					if payment_hash == hash { s.claimable_spont.push(matches!(purpose, lightning::events::PaymentPurpose::SpontaneousPayment(_))); s.claimable.push((*amount_msat, *counterparty_skimmed_fee_msat, claim_deadline.unwrap_or(0))); } else { s.trouble = Some("PaymentClaimable for a foreign hash".into()); }
 				},
 				Event::PaymentClaimed { payment_hash, amount_msat, htlcs, sender_intended_total_msat, .. } => {
 					if payment_hash == hash { s.claimed.push((*amount_msat, htlcs.iter().map(|h| h.counterparty_skimmed_fee_msat).sum(), sender_intended_total_msat.unwrap_or(0), htlcs.iter().map(|h| h.value_msat).sum())); } else { s.trouble = Some("PaymentClaimed for a foreign hash".into()); }
@@ -571,10 +580,12 @@ mod mpp {
 	/// only honoured when `route` is one of its channels. `strict`: the receiver refuses underpaying HTLCs on that channel
 	/// while this part arrives (`accept_underpaying_htlcs = false` via update_channel_config)
 	/// `declare`: added to the skimmed fee the intercepting node declares in its message (0 = the truth)
-	struct PartSpec { route: usize, amt: u64, total: u64, delta: u32, sec: usize, tlv: Tlv, via: Option<i64>, strict: bool, declare: i64 }
+	struct PartSpec { route: usize, amt: u64, total: u64, delta: u32, sec: usize, tlv: Tlv, via: Option<i64>, strict: bool, declare: i64,
+		/// keysend: 0 = none, 1 = the onion carries the preimage of the payment hash, 2 = another preimage; nosec: no payment secret in the onion
+		ks: u8, nosec: bool }
 
 	#[derive(Clone, Debug)]
-	struct Held { id: u64, value: u64, intended: u64, skim: u64, total: u64, cltv: u32 }
+	struct Held { id: u64, value: u64, intended: u64, skim: u64, total: u64, cltv: u32, ks: bool }
 
 	#[derive(PartialEq, Clone, Copy, Debug)]
 	enum PartOut { Held, Claimable, Rejected, Refused, Abort }
@@ -670,15 +681,16 @@ mod mpp {
 		/// queue the part's update_add_htlc for the receiver (directly, or through the intercepting node)
 		fn send_spec(&self, w: &mut World, p: &PartSpec) -> (usize, Option<i64>, bool, Result<Result<Added, String>, String>) {
 			let (from, chan) = w.routes[p.route % w.routes.len()];
-			let via = if from == 2 && w.lsp_in.is_some() { p.via } else { None };
+			let via = if from == 2 && w.lsp_in.is_some() && p.ks == 0 { p.via } else { None };
 			let strict = via.is_some() && p.strict;
-			let onion = self.onion(p, self.secrets[p.sec % self.secrets.len()]);
+			let onion = if p.nosec { RecipientOnionFields::spontaneous_empty(p.total) } else { self.onion(p, self.secrets[p.sec % self.secrets.len()]) };
+			let keysend = match p.ks { 0 => None, 1 => Some(self.preimage), _ => { let mut x = self.preimage; x.0[7] ^= 0x10; Some(x) } };
 			let hash = self.hash;
 			let sent = guarded(AssertUnwindSafe(|| {
 				// (the intercepting node may pick any of its channels to the receiver: switch all of them)
 				let its: Vec<usize> = w.routes.iter().filter(|r| r.0 == from).map(|r| r.1).collect();
 				for c in its { Scn::set_strict(w, c, strict); }
-				match via { Some(x) => send_via_lsp(w, chan, hash, onion, p.amt, p.delta, x, p.declare), None => send_raw(w, from, chan, hash, onion, p.amt, p.delta) }
+				match via { Some(x) => send_via_lsp(w, chan, hash, onion, p.amt, p.delta, x, p.declare), None => send_raw_ks(w, from, chan, hash, onion, p.amt, p.delta, keysend) }
 			}));
 			(chan, via, strict, sent)
 		}
@@ -696,7 +708,7 @@ mod mpp {
 			let chan = add.chan;
 			let id = w.rank[chan] * 1_000_000 + add.htlc_id;
 			let ev = p.tlv.even();
-			let tag = (p.sec % self.secrets.len()) as u64 * 1000 + match ev { None => 1, Some(v) => 2 + v as u64 };
+			let tag = (p.sec % self.secrets.len()) as u64 * 1000 + match ev { None => 1, Some(v) => 2 + v as u64 } + if p.ks != 0 { 500_000 } else { 0 } + if p.nosec { 250_000 } else { 0 };
 			let skim_tok = add.skim.map(|v| v.to_string()).unwrap_or("none".into());
 			let op = format!("part {} {} {} {} {} {} {} {}", id, add.amount, p.amt, skim_tok, p.total, add.cltv, tag, ev.is_some() as u8);
 			if let Err(m) = self.drive(w, |_| {}) { rec.case(&op, &format!("panic {}", short(&m)), "part:panic", true); return PartOut::Abort; }
@@ -712,6 +724,22 @@ mod mpp {
 				let admit = format!("admit {} {} {} {}", allow as u8, p.amt, add.amount, skim_tok);
 				if low != want_low { rec.oracle_fail(format!("[{}] `{}` -> {}: an HTLC carrying {} msat (+ skimmed fee {:?}) for an onion amount of {} was {} with accept_underpaying_htlcs = {}; ops: {}", self.kind, admit, if low { "low" } else { "ok" }, add.amount, add.skim, p.amt, if low { "refused (FinalIncorrectHTLCAmount)" } else { "let through to the payment logic" }, allow, self.history())); }
 				rec.case(&admit, if low { "low" } else { "ok" }, &format!("admit:{}:{}:{}", if via.is_none() { "direct" } else if add.amount > p.amt { "overpaid" } else if p.declare < 0 { "skimmed-underdeclared" } else if p.declare > 0 { "skimmed-overdeclared" } else if add.skim.is_some() { "skimmed" } else { "exact" }, if allow { "underpay-ok" } else { "strict" }, if low { "low" } else { "ok" }), true);
+			}
+			// ---- keysend: the routing selection of create_recv_pending_htlc_info (translated: MppGen.recvRouting) ---------------
+			// a spontaneous payment goes on to the payment logic only if SHA-256(keysend preimage) = payment hash
+			if p.ks != 0 && !low {
+				let bad_pre = seen.handling_failed.iter().any(|t| t.contains("InvalidKeysendPreimage"));
+				let ans = if bad_pre { "err InvalidKeysendPreimage" } else if !failed || reached { "keysend" } else { "other" };
+				let rop = format!("routing {} {}", if p.ks == 1 { "ok" } else { "bad" }, (!p.nosec) as u8);
+				if (p.ks == 2) != bad_pre || (p.ks == 2 && (!failed || !seen.claimable.is_empty())) {
+					rec.oracle_fail(format!("[{}] `{}` -> {}: a keysend HTLC whose preimage {} to the payment hash was {}; then `{}` -> {}; ops: {}", self.kind, rop, ans, if p.ks == 1 { "hashes" } else { "does NOT hash" }, if bad_pre { "refused (InvalidKeysendPreimage)" } else { "handed on to the payment logic" }, op, seen.answer(), self.history()));
+				}
+				rec.case(&rop, ans, &format!("routing:{}:{}", ans.replace(' ', "-"), if p.nosec { "no-secret" } else { "with-secret" }), true);
+				if bad_pre || ans == "other" {
+					if !seen.claimable.is_empty() || !seen.fulfils.is_empty() || !seen.claimed.is_empty() { rec.oracle_fail(format!("[{}] a keysend HTLC refused for its preimage produced {}; ops: {}", self.kind, seen.answer(), self.history())); }
+					self.absorb(w, rec, &seen, &op);
+					return PartOut::Refused;
+				}
 			}
 			if low {
 				if !seen.claimable.is_empty() || !seen.fulfils.is_empty() || !seen.claimed.is_empty() { rec.oracle_fail(format!("[{}] an HTLC refused for its amount produced {}; ops: {}", self.kind, seen.answer(), self.history())); }
@@ -747,7 +775,7 @@ mod mpp {
 				out = PartOut::Rejected;
 			} else {
 				self.ops.push(op.clone());
-				self.held.push(Held { id, value: add.amount, intended: p.amt, skim: add.skim.unwrap_or(0), total: p.total, cltv: add.cltv });
+				self.held.push(Held { id, value: add.amount, intended: p.amt, skim: add.skim.unwrap_or(0), total: p.total, cltv: add.cltv, ks: p.ks != 0 });
 				let shape = if self.held.iter().any(|h| h.value < h.intended) { "-skimmed" } else if self.held.iter().any(|h| h.value > h.intended) { "-overpaid" } else { "" };
 				if let Some((amt, skimmed, dl)) = seen.claimable.first().copied() {
 					// oracle 1: claimable only if complete, with the right amount, skimmed fee and deadline
@@ -763,7 +791,10 @@ mod mpp {
 					if skimmed != sum_skim { rec.oracle_fail(format!("PaymentClaimable counterparty_skimmed_fee_msat {} != sum of the parts' skimmed fees {}: {}", skimmed, sum_skim, desc)); }
 					if amt.saturating_add(skimmed) < p.total { rec.oracle_fail(format!("PaymentClaimable amount {} + skimmed {} is below total_msat {}: {}", amt, skimmed, p.total, desc)); }
 					if dl != min_cltv.saturating_sub(HTLC_FAIL_BACK_BUFFER) { rec.oracle_fail(format!("PaymentClaimable claim_deadline {} != min cltv {} - {}: {}", dl, min_cltv, HTLC_FAIL_BACK_BUFFER, desc)); }
-					if p.total < self.min { rec.oracle_fail(format!("PaymentClaimable below the invoice minimum {}: {}", self.min, desc)); }
+					if p.ks == 0 && p.total < self.min { rec.oracle_fail(format!("PaymentClaimable below the invoice minimum {}: {}", self.min, desc)); }
+					// a spontaneous payment never merges with an invoice payment of the same hash, and is announced as what it is
+					let spont = seen.claimable_spont.first().copied().unwrap_or(false);
+					if held.iter().any(|h| h.ks != spont) { rec.oracle_fail(format!("PaymentClaimable (purpose spontaneous = {}) over a set that mixes keysend and invoice HTLCs or with the wrong purpose: {}", spont, desc)); }
 					if seen.claimable.len() > 1 { rec.oracle_fail(format!("two PaymentClaimable events for one part: {}", desc)); }
 					rec.case(&op, &seen.answer(), &format!("part:claimable{}", shape), true);
 					self.deadline = Some(dl);
@@ -954,7 +985,7 @@ mod mpp {
 				let op = format!("part {} {} {} {} {} {} {} {}", id, a.amount, late.amt, a.skim.map(|v| v.to_string()).unwrap_or("none".into()), late.total, a.cltv, tag, ev.is_some() as u8);
 				self.ops.push(op.clone());
 				if !of_part.fulfils.is_empty() || !of_part.claimable.is_empty() { rec.oracle_fail(format!("[{}] `{}` arriving while the payment is being claimed produced {}", self.kind, op, of_part.answer())); }
-				if of_part.fails.is_empty() { self.held.push(Held { id, value: a.amount, intended: late.amt, skim: a.skim.unwrap_or(0), total: late.total, cltv: a.cltv }); }
+				if of_part.fails.is_empty() { self.held.push(Held { id, value: a.amount, intended: late.amt, skim: a.skim.unwrap_or(0), total: late.total, cltv: a.cltv, ks: false }); }
 				rec.case(&op, &of_part.answer(), if of_part.fails.is_empty() { "part:held-during-claim" } else { "part:rejected-during-claim" }, true);
 			} else { self.dead = true; rec.discarded += 1; }
 			let claimed = !all.claimed.is_empty();
@@ -1075,7 +1106,7 @@ mod mpp {
 				if !self.lsp.is_empty() && self.rng.chance(1, 2) { route = *self.rng.pick(&self.lsp); via = Some(self.skim(*a)); strict = self.rng.chance(1, 14); }
 				// 1 in 7 skimming forwards declares one msat less / one more / nothing / much more than was taken
 				let declare = match via { Some(x) if x > 0 && self.rng.chance(1, 7) => match self.rng.below(4) { 0 => -1, 1 => 1, 2 => -x, _ => 1 + self.rng.below(100_000) as i64 }, _ => 0 };
-				out.push(PartSpec { route, amt: *a, total, delta: if same_delta { d0 } else { self.delta() }, sec: 0, tlv, via, strict, declare });
+				out.push(PartSpec { route, amt: *a, total, delta: if same_delta { d0 } else { self.delta() }, sec: 0, tlv, via, strict, declare, ks: 0, nosec: false });
 			}
 			out
 		}
@@ -1166,7 +1197,7 @@ mod mpp {
 	const KINDS: &[(&str, u64)] = &[
 		("exact", 22), ("overlast", 6), ("tick-between", 10), ("under", 9), ("over", 9), ("bad-total", 8), ("tlv-mix", 10), ("even-all", 8),
 		("secret-mix", 6), ("deadline", 12), ("unmodelled", 9), ("during-claim", 7), ("skim", 24), ("skim-under", 7), ("overfwd", 7),
-		("deadline-order", 9), ("min-cltv", 10),
+		("deadline-order", 9), ("min-cltv", 10), ("keysend", 12),
 	];
 	/// schedules that leave HTLCs stuck in the receiver's channels: run as the last scenario of a network
 	const LAST_KINDS: &[&str] = &["claim-incomplete", "deadline-drop", "under-claim"];
@@ -1428,7 +1459,7 @@ mod mpp {
 				for i in 1..k { let d = deltas[i - 1] + 1 + rng.below(6) as u32; deltas.push(d); }
 				// deltas ascending = the earliest expiry on the lowest channel id; otherwise move the earliest one off the front
 				if !lo_first { if k == 3 && rng.chance(1, 2) { deltas.swap(0, 1); } else { deltas.reverse(); } }
-				let mut parts: Vec<PartSpec> = (0..k).map(|i| PartSpec { route: by_rank[i], amt: amts[i], total, delta: deltas[i], sec: 0, tlv: Tlv::No, via: None, strict: false, declare: 0 }).collect();
+				let mut parts: Vec<PartSpec> = (0..k).map(|i| PartSpec { route: by_rank[i], amt: amts[i], total, delta: deltas[i], sec: 0, tlv: Tlv::No, via: None, strict: false, declare: 0, ks: 0, nosec: false }).collect();
 				// arrival order: any
 				for i in (1..parts.len()).rev() { let j = rng.below(i as u64 + 1) as usize; parts.swap(i, j); }
 				if send_all(w, rec, rng, &mut s, &parts, false) == PartOut::Claimable {
@@ -1467,6 +1498,47 @@ mod mpp {
 						if s.op_part(w, rec, &p) == PartOut::Claimable { if rng.chance(1, 2) { s.op_claim(w, rec, false) } else { s.op_failback(w, rec) } }
 					}
 				}
+				s.finish(w);
+			},
+			"keysend" => {
+				// spontaneous payments (the onion carries a keysend preimage; inbound_payment::verify is skipped): alone without a payment
+				// secret, as MPP with one, with a preimage that does not hash to the payment hash (refused before the payment logic),
+				// and against a pending invoice payment of the SAME hash and secret in both orders (purpose mismatch: the later part is refused)
+				let variant = rng.below(7);
+				let k = if variant == 0 || variant == 2 { 1 } else { 2 };
+				let total = pick_total(rng, k);
+				let amts = split(rng, total, k);
+				let mut s = Scn::new(w, rec, rng, kind, None, false, 7200);
+				let mut g = Gen { rng: &mut *rng, routes: nroutes, lsp: lsp.clone() };
+				let mut parts = g.parts(&amts, total, Tlv::No, false);
+				for p in parts.iter_mut() { p.via = None; p.strict = false; p.declare = 0; p.ks = 1; }
+				let mut last = PartOut::Abort;
+				match variant {
+					0 => { parts[0].nosec = true; parts[0].total = parts[0].amt; last = s.op_part(w, rec, &parts[0]); },
+					1 => { last = send_all(w, rec, rng, &mut s, &parts, true); },
+					2 => {
+						// wrong preimage alone (with or without secret), then the right one
+						let mut bad = parts[0].clone(); bad.ks = 2; bad.nosec = rng.chance(1, 2); if bad.nosec { bad.total = bad.amt; }
+						if s.op_part(w, rec, &bad) != PartOut::Abort { let mut good = bad.clone(); good.ks = 1; last = s.op_part(w, rec, &good); }
+					},
+					3 => {
+						// keysend part held, wrong-preimage part refused, keysend part completes
+						let mut bad = parts[1].clone(); bad.ks = 2;
+						if s.op_part(w, rec, &parts[0]) != PartOut::Abort && s.op_part(w, rec, &bad) != PartOut::Abort { last = s.op_part(w, rec, &parts[1]); }
+					},
+					4 | 5 => {
+						// keysend part held, then an invoice part of the same hash, secret and total_msat: refused (never merged); then the keysend part
+						let mut inv = parts[1].clone(); inv.ks = 0;
+						if s.op_part(w, rec, &parts[0]) != PartOut::Abort && s.op_part(w, rec, &inv) != PartOut::Abort { last = s.op_part(w, rec, &parts[1]); }
+					},
+					_ => {
+						// the other way round: invoice part held, keysend part refused, invoice part completes
+						let mut i0 = parts[0].clone(); i0.ks = 0; let mut i1 = parts[1].clone(); i1.ks = 0;
+						if s.op_part(w, rec, &i0) != PartOut::Abort && s.op_part(w, rec, &parts[1]) != PartOut::Abort { last = s.op_part(w, rec, &i1); }
+					},
+				}
+				if last == PartOut::Claimable { tail_complete(w, rec, rng, &mut s, false, total); }
+				else if !s.dead { if rng.chance(1, 2) { s.op_tick(w, rec) } else { s.op_failback(w, rec) } }
 				s.finish(w);
 			},
 			"min-cltv" => {
@@ -1551,14 +1623,14 @@ mod mpp {
 		let mut s = Scn::new(&mut w, &mut scratch, rng, "probe", None, false, 7200);
 		let total = 300_000;
 		// the surviving part and the late part share a channel, so that the set stays in (channel_id, htlc_id) order
-		let a = PartSpec { route: 0, amt: 100_000, total, delta: 60, sec: 0, tlv: Tlv::No, via: None, strict: false, declare: 0 };
-		let b = PartSpec { route: 1, amt: 200_000, total, delta: 66, sec: 0, tlv: Tlv::No, via: None, strict: false, declare: 0 };
+		let a = PartSpec { route: 0, amt: 100_000, total, delta: 60, sec: 0, tlv: Tlv::No, via: None, strict: false, declare: 0, ks: 0, nosec: false };
+		let b = PartSpec { route: 1, amt: 200_000, total, delta: 66, sec: 0, tlv: Tlv::No, via: None, strict: false, declare: 0, ks: 0, nosec: false };
 		s.op_part(&mut w, &mut scratch, &a);
 		if s.op_part(&mut w, &mut scratch, &b) != PartOut::Claimable { std::mem::forget(w); return "set-up failed: the two parts did not become claimable".into(); }
 		let d = s.deadline.unwrap_or(0);
 		s.blocks_to(&mut w, &mut scratch, d);
 		if s.held.len() != 1 { std::mem::forget(w); return format!("set-up failed: {} parts left after the deadline block", s.held.len()); }
-		let c = PartSpec { route: 1, amt: 50_000, total, delta: 70, sec: 0, tlv: Tlv::No, via: None, strict: false, declare: 0 };
+		let c = PartSpec { route: 1, amt: 50_000, total, delta: 70, sec: 0, tlv: Tlv::No, via: None, strict: false, declare: 0, ks: 0, nosec: false };
 		let o = s.op_part(&mut w, &mut scratch, &c);
 		if o != PartOut::Held { std::mem::forget(w); return format!("set-up failed: the late part was {:?}", o); }
 		let (tpos, epos) = (w.net.trace.len(), w.net.events[RECV].len());
@@ -1581,8 +1653,8 @@ mod mpp {
 		let total = 300_000;
 		// first the channel with the larger channel_id, then the smaller one
 		let hi = if w.rank[w.routes[0].1] > w.rank[w.routes[1].1] { 0 } else { 1 };
-		let a = PartSpec { route: hi, amt: 100_000, total, delta: 80, sec: 0, tlv: Tlv::No, via: None, strict: false, declare: 0 };
-		let b = PartSpec { route: 1 - hi, amt: 100_000, total, delta: 80, sec: 0, tlv: Tlv::No, via: None, strict: false, declare: 0 };
+		let a = PartSpec { route: hi, amt: 100_000, total, delta: 80, sec: 0, tlv: Tlv::No, via: None, strict: false, declare: 0, ks: 0, nosec: false };
+		let b = PartSpec { route: 1 - hi, amt: 100_000, total, delta: 80, sec: 0, tlv: Tlv::No, via: None, strict: false, declare: 0, ks: 0, nosec: false };
 		if s.op_part(&mut w, &mut scratch, &a) != PartOut::Held || s.op_part(&mut w, &mut scratch, &b) != PartOut::Held { std::mem::forget(w); return "set-up failed: the two parts were not held".into(); }
 		let (tpos, epos) = (w.net.trace.len(), w.net.events[RECV].len());
 		let pre = s.preimage;
@@ -1602,7 +1674,7 @@ mod mpp {
 		let mut w = match build_world(rng, true) { Ok(w) => w, Err(e) => return format!("could not build the network: {}", short(&e)) };
 		let mut scratch = Rec::new(&probe_dir(), "probe2");
 		let mut s = Scn::new(&mut w, &mut scratch, rng, "probe", None, false, 7200);
-		let a = PartSpec { route: 0, amt: 100_000, total: 100_000, delta: 100, sec: 0, tlv: Tlv::No, via: None, strict: false, declare: 0 };
+		let a = PartSpec { route: 0, amt: 100_000, total: 100_000, delta: 100, sec: 0, tlv: Tlv::No, via: None, strict: false, declare: 0, ks: 0, nosec: false };
 		if s.op_part(&mut w, &mut scratch, &a) != PartOut::Claimable { std::mem::forget(w); return "set-up failed: the part did not become claimable".into(); }
 		let mut out = "survived 256 ticks; the payment stayed claimable".to_string();
 		for i in 1..=256u32 {
@@ -1671,7 +1743,7 @@ mod mpp {
 	over = extra part(s) after completion; bad-total = a part with another total_msat; tlv-mix = even/odd custom TLV mismatches; even-all = same even TLV on all parts then claim 0 / claim 1; secret-mix = second valid secret for the same hash; \
 	during-claim = the set arrives over one channel, claim_funds runs with the receiver's monitor updates held InProgress on that channel, a new part arrives over another channel (failed: the hash is in pending_claiming_payments), then the updates complete (fulfils + PaymentClaimed are attributed to the claim line, the late part's failure to its part line); deadline-order = 2-3 direct parts over distinct channels with different final CLTV expiries, the earliest-expiring one on the lowest channel id or (2 of 3) not, any arrival order, single blocks up to the ADVERTISED claim_deadline-1, then claim (must fulfil all); deadline = single blocks up to claim_deadline-1 then claim, or up to claim_deadline (parts fail by their own cltv) then claim/failback/tick/more blocks; claim-incomplete, under-claim, deadline-drop = claims that drop HTLCs silently (network abandoned afterwards); \
 	complete sets end with claim / double claim / claim+failback / failback / failback+claim / ticks+claim / blocks+claim / claim+new part under the same hash. \
-	skim = every part through the intercepting node, complete on the sender-intended amounts although less arrived, then 1-3 timer ticks, single blocks with 0-2 ticks after each up to a chosen height <= claim_deadline-1, then claim / claim+tick / failback / run into the deadline (half of the ticks+claim tails of the other schedules do the same walk); skim-under = skimmed parts that stay below total_msat, then tick / block+tick / failback; overfwd = over-paying forwards whose VALUES reach total_msat while the sender-intended amounts do not (held, failed by the tick); unmodelled (impl oracle, op `routing` only, no part op): wrong payment secret (1 bit flipped), total_msat below the invoice minimum, expired invoice, an onion without payment secret and without keysend preimage (refused with PaymentSecretRequired), each alone or as the completing part of a held set. Impl oracles: PaymentClaimable only for complete sets (sum intended >= total_msat) with amount = sum of values, counterparty_skimmed_fee_msat = sum of skims, deadline = min cltv - 39, and conversely a set that completes IS announced; a PaymentClaimable set loses no HTLC to a timer tick or a block below its claim_deadline (message carries the op history); an incomplete set is failed by the tick; claim below the deadline fulfils every part and yields PaymentClaimed with the announced amount / skim / total_msat and balance delta = amount; the receive-side amount test matches value (+ skim when allowed) >= onion amount; min-cltv = the secret commits to a min_final_cltv_expiry_delta M, 1-3 parts with final CLTV deltas M-4..M+30 around the boundary (op `mincltv height M cltv_expiry`, oracle: failed back iff cltv_expiry < receiver height + M, never shown to the user), blocks between, refused amounts re-sent with an acceptable expiry. Three probes on throw-away networks are in the notes (never in the compared stream): probe_inconsistent_claim, probe_timer_ticks_u8, probe_unsorted_incomplete_claim. distinct = distinct non-trivial op lines",
+	skim = every part through the intercepting node, complete on the sender-intended amounts although less arrived, then 1-3 timer ticks, single blocks with 0-2 ticks after each up to a chosen height <= claim_deadline-1, then claim / claim+tick / failback / run into the deadline (half of the ticks+claim tails of the other schedules do the same walk); skim-under = skimmed parts that stay below total_msat, then tick / block+tick / failback; overfwd = over-paying forwards whose VALUES reach total_msat while the sender-intended amounts do not (held, failed by the tick); unmodelled (impl oracle, op `routing` only, no part op): wrong payment secret (1 bit flipped), total_msat below the invoice minimum, expired invoice, an onion without payment secret and without keysend preimage (refused with PaymentSecretRequired), each alone or as the completing part of a held set. Impl oracles: PaymentClaimable only for complete sets (sum intended >= total_msat) with amount = sum of values, counterparty_skimmed_fee_msat = sum of skims, deadline = min cltv - 39, and conversely a set that completes IS announced; a PaymentClaimable set loses no HTLC to a timer tick or a block below its claim_deadline (message carries the op history); an incomplete set is failed by the tick; claim below the deadline fulfils every part and yields PaymentClaimed with the announced amount / skim / total_msat and balance delta = amount; the receive-side amount test matches value (+ skim when allowed) >= onion amount; keysend = spontaneous payments sent through the keysend hook (preimage in the onion, hash chosen by the harness): alone without payment secret, as 2-part MPP with one, with a preimage that does not hash to the payment hash (op `routing bad ..`, oracle: refused with InvalidKeysendPreimage, never claimable), and against a held invoice part of the same hash / secret / total_msat in both orders (the later part is refused; oracle: a PaymentClaimable never covers keysend and invoice HTLCs together and carries the purpose of its parts); min-cltv = the secret commits to a min_final_cltv_expiry_delta M, 1-3 parts with final CLTV deltas M-4..M+30 around the boundary (op `mincltv height M cltv_expiry`, oracle: failed back iff cltv_expiry < receiver height + M, never shown to the user), blocks between, refused amounts re-sent with an acceptable expiry. Three probes on throw-away networks are in the notes (never in the compared stream): probe_inconsistent_claim, probe_timer_ticks_u8, probe_unsorted_incomplete_claim. distinct = distinct non-trivial op lines",
 			done, worlds, abandoned, per_world, ks.join(" ")));
 		rec.finish();
 	}
